@@ -63,6 +63,8 @@ fn per_slot_wide(i: u8, k: u8, v: &mut Vec<Op>) {
     v.push(AddAssign(i));
     v.push(Add(i));
     v.push(WriteFmt(i));
+    v.push(WriteFmtBad(i, 0));
+    v.push(WriteFmtBad(i, 1));
     for w in 0..3 {
         v.push(ReserveHuge(i, w));
     }
@@ -265,6 +267,11 @@ pub fn seeds(p: &Profile) -> Vec<History> {
         vec![FromStr(4), Clone(0), ExtendHuge(1, 0)],
         // a retain that panicked half way on a shared buffer
         vec![FromStr(4), Clone(0), RetainPanic(1, 2)],
+        // un-shared by a small reservation: an exclusively owned heap buffer whose capacity is
+        // below the inline size
+        vec![FromStr(4), Clone(0), TruncateAbs(1, 3), Reserve(1, 1)],
+        vec![FromStr(4), Clone(0), TruncateAbs(1, 3), Reserve(1, 1), Drop(0)],
+        vec![FromStr(4), Clone(0), TruncateAbs(1, 9), Push(1, 0)],
     ];
     let mut out = Vec::new();
     for ops in all {
